@@ -31,7 +31,7 @@ func (s Sc) Bound() int {
 }
 
 // Part is an additional, non-GX part of a check contributing to the same evidence.
-type Part func(t *testing.T, c *ev.Check) (exhaustive bool)
+type Part func(t *testing.T, c *ev.Check, e *Explorer) (exhaustive bool)
 
 // RunCheck is the body of TestCheck for a GX check: explore every scenario to its tier bound
 // (sharing the time budget), keep the violations of `prop`, write evidence, set ExitCode.
@@ -46,12 +46,18 @@ func RunCheck(t *testing.T, prop string, scs []Sc, quick, thorough time.Duration
 	c := ev.NewCheck(prop, "model_checking")
 	c.Assumptions = assumptions
 	e := NewExplorer(c)
+	defer e.Close()
 	e.Accept = func(v ev.Violation) bool { return v.Property == prop }
-	end := time.Now().Add(ev.Deadline(quick, thorough))
+	budget := ev.Deadline(quick, thorough)
+	end := time.Now().Add(budget)
+	scEnd := end
+	if len(parts) > 0 {
+		scEnd = time.Now().Add(budget * 55 / 100) // the rest of the budget belongs to the parts
+	}
 	all := true
 	var cutList []string
 	for i, s := range scs {
-		left := time.Until(end)
+		left := time.Until(scEnd)
 		if left < 0 {
 			left = 0
 		}
@@ -63,7 +69,8 @@ func RunCheck(t *testing.T, prop string, scs []Sc, quick, thorough time.Duration
 		}
 	}
 	for _, p := range parts {
-		if !p(t, c) {
+		e.Deadline = end
+		if !p(t, c, e) {
 			all = false
 		}
 	}
